@@ -462,7 +462,9 @@ class Gen:
         consumed = False
         self.prev_definite = False
         for i in range(n):
-            s = self.stmt(depth, loops, prev_cont, after_match=consumed)
+            # $last is only well defined immediately behind a match statement of the same block (docs/user-ref/parser.md);
+            # elsewhere the optimiser may legitimately shift the byte it observes (C05), so it is not generated there
+            s = self.stmt(depth, loops, prev_cont, after_match=bool(stmts) and stmts[-1][0] in ("match", "append"))
             if s is None:
                 continue
             st, f, c, nl, term = s
